@@ -315,7 +315,11 @@ func (m *Matcher) node(n gen.Node, pos int, e Ctx, k cont) bool {
 	case gen.Lit:
 		l := len(x.S)
 		if l == 0 {
-			return false // the empty literal is outside the generator scope
+			// the empty string matches everywhere without consuming; its negation matches nowhere
+			if x.Not {
+				return false
+			}
+			return k(pos, e)
 		}
 		if pos+l > len(t) {
 			return false
